@@ -48,11 +48,11 @@ CHECKS = {
    note="preemption happens at loop heads only; torn updates are left to the race monitor",
    tech="deterministic simulation: quantum-preemptive seeded scheduling of instrumented library code, solitary-call oracle; -race monitor as auxiliary"),
  "C13": dict(engine="tool-sim", cat="exploration", ref="§4.6",
-   text="The real main of rddetector runs in a synctest bubble on a per-run scratch tree (nested directories, .bin/.dat, decoys) with worker count 1..64 and a seeded schedule over walker, workers, row senders and writer; the report read when main returns must be the header plus exactly one complete row per sample file, every value equal at 6 decimals to the library value for the test and parameter the header column names. Trees include shared base names, 65-144 files, empty directories, sample contents that look like text, an older report at the output path, default -o/-n. The same plan also runs against the pristine tool built with -race as real OS processes on 1/2/4/16 CPUs (auxiliary).",
+   text="The real main of rddetector runs in a synctest bubble on a per-run scratch tree (nested directories, .bin/.dat, decoys) with worker count 1..64 and a seeded schedule over walker, workers, row senders and writer; the report read when main returns must be the header plus exactly one complete row per sample file, every value equal at 6 decimals to the library value for the test and parameter the header column names. Trees include shared base names, 65-144 files, empty directories, sample contents that look like text, an older report at the output path, default -o/-n, and a few trees with a directory named like a sample (*.bin/*.dat), on which the tool panics: an open known finding (known_findings.json, DESIGN.md §3.7), printed as KNOWN-FINDING. The same plan also runs against the pristine tool built with -race as real OS processes on 1/2/4/16 CPUs (auxiliary).",
    note="the library is the value oracle (as the property states); the file system is real; 10^8-bit scale is exercised structurally only",
    tech="deterministic simulation of the tool's goroutine pipeline (seeded schedules) with a header-driven column model; -race real-scheduler monitor as auxiliary"),
  "C20": dict(engine="tool-sim", cat="exploration", ref="§4.9",
-   text="The real main of rdgen runs in a synctest bubble with a seeded entropy source, worker count and schedule; when main returns the requested directory must hold exactly random0..random(s-1).bin of n/8 bytes, pairwise different, nothing elsewhere, and rddetector's sample counting must accept it. Output paths include percent signs, spaces, non-ASCII, trailing slash, dot-named and .bin-named directories, a directory used before; sizes up to 10^8 bits with up to 8 samples at once. The same plan also runs against the pristine tool built with -race as real OS processes (auxiliary); there the pristine rddetector binary is then run on the directory of small 20000-bit runs and must report s rows.",
+   text="The real main of rdgen runs in a synctest bubble with a seeded entropy source, worker count and schedule; when main returns the requested directory must hold exactly random0..random(s-1).bin of n/8 bytes, pairwise different, nothing elsewhere, and rddetector's sample counting must accept it. Output paths include percent signs, spaces, non-ASCII, trailing slash, dot-named and .bin-named directories, a directory used before; sizes up to 10^8 bits with up to 8 samples at once. The same plan also runs against the pristine tool built with -race as real OS processes (auxiliary); there the pristine rddetector binary is then run on the directory of small 20000-bit runs and must announce s samples of n bits.",
    note="file system is real (scratch directory per run); entropy is a seeded stub",
    tech="deterministic simulation of the generator's worker pool (seeded schedules, seeded entropy) with a file-system post-state model; -race real-scheduler monitor as auxiliary"),
 }
@@ -100,7 +100,7 @@ def main():
         "engines": engines,
         "checks": checks,
         "not_applicable": na,
-        "notes": "Technique: deterministic simulation with fault injection. fix: commits in /repo: fc96a8a (C08), 3e88988 (C10), 4d62521 (C09), 8233ec8 (C14); see known_findings.json and DESIGN.md §6. ./check exits 2 (never a VIOLATION line) on build, watchdog or determinism trouble.",
+        "notes": "Technique: deterministic simulation with fault injection. fix: commits in /repo: fc96a8a (C08), 3e88988 (C10), 4d62521 (C09), 8233ec8 (C14), 451cfab (C20), 8cd4125, ba9b864, d961e7d (C13); one open known finding (C13: directory named like a sample); see known_findings.json and DESIGN.md §3.7, §6. ./check exits 2 (never a VIOLATION line) on build, watchdog or determinism trouble.",
     }
     json.dump(m, open(os.path.join(VERIF, "MANIFEST.json"), "w"), indent=1, ensure_ascii=False)
     print("MANIFEST.json written: %d checks, %d not_applicable" % (len(checks), len(na)))
